@@ -711,9 +711,26 @@ def subsets_for(s, rng, all_subsets):
     return out
 
 
+def cap_per_key(p, limit=4):
+    """record at most `limit` violations per key (so that every distinct key stays visible under
+    the probe's overall cap); the rest are only counted"""
+    seen = {}
+    orig = p.violation
+
+    def violation(key, clause, inp, observed, expected, call=None):
+        seen[key] = seen.get(key, 0) + 1
+        if seen[key] <= limit:
+            orig(key, clause, inp, observed, expected, call)
+        else:
+            p.stats.add('VIOLATION:' + clause)
+        p.stats.add('VIOLATION-KEY:' + key)
+    p.violation = violation
+
+
 def run(p):
     rng = p.rng
     load_gnss()
+    cap_per_key(p)
     with Scratch():
         nfiles = p.n(36, 400)
         clock_names = dict((c, n) for n, c in CLOCKS)
